@@ -193,3 +193,18 @@ Proof.
   - exists demo_calls, (firstn 23 demo_sched). vm_compute. reflexivity.
   - exists 1. eexists. split; reflexivity.
 Qed.
+
+(* a reachable cycle in which only the polling executor moves while a member that could move is never scheduled *)
+Lemma polling_cycle :
+  exists st, run (head false) (init_state lasso_calls) lasso_prefix = Some st
+    /\ run (head false) st lasso_cycle = Some st
+    /\ (exists th0, nth_error (threads st) 0 = Some th0 /\ t_pc th0 = N2)
+    /\ (exists st', step (head false) st 0 0 = Some st')
+    /\ (exists st1 st2, run (head false) st (firstn 2 lasso_cycle) = Some st1 /\ step (head false) st1 0 0 = None
+                        /\ run (head false) st (firstn 3 lasso_cycle) = Some st2).
+Proof.
+  eexists. split; [vm_compute; reflexivity|]. split; [vm_compute; reflexivity|]. split; [|split].
+  - eexists. split; reflexivity.
+  - eexists. vm_compute. reflexivity.
+  - eexists. eexists. split; [vm_compute; reflexivity|]. split; [vm_compute; reflexivity|vm_compute; reflexivity].
+Qed.
